@@ -461,7 +461,7 @@ class Emit:
             name = v.args[0].id
             w = None
             for c in walk_local(self.f.node):
-                if isinstance(c, ast.Call) and isinstance(c.func, ast.Attribute) and c.func.attr == "align" and norm(c.func.value) == name and len(c.args) >= 2 and c.lineno < st.lineno:
+                if isinstance(c, ast.Call) and isinstance(c.func, ast.Attribute) and c.func.attr == "align" and norm(c.func.value) == name and len(c.args) >= 2 and c.lineno <= st.lineno and c not in list(ast.walk(st)):
                     w = env.val(c.args[1], env.nid(c))
             if w is not None:
                 self.cur = _add(self.cur, w)
